@@ -200,6 +200,7 @@ func runC19(cfg *runCfg) error {
 			data           map[string]interface{}
 			planErr, exErr error
 		}
+		cfg.Crumb("request", map[string]interface{}{"query": q.Text, "operation": q.OpName, "variables": q.Vars})
 		ch := make(chan result, 1)
 		go func() {
 			d, pe, ee := fed.Run(context.Background(), q.Text, q.OpName, q.Vars)
@@ -282,7 +283,7 @@ func runC19(cfg *runCfg) error {
 		}
 		obs := fmt.Sprintf("{| ob_scrub_fails := %s; ob_exec_err := %s; ob_log := [%s]; ob_seen := [%s]; ob_data := %s; ob_err := %s; ob_calls := [%s] |}",
 			coqBool(scrubFails), coqBool(execErr), strings.Join(logs, "; "), strings.Join(seen, "; "), final, errCode, strings.Join(calls, "; "))
-		c.Printf("Eval vm_compute in (%d%%nat, model_agrees [%s] %s, property_holds [%s] %s).\n", id, strings.Join(mws, "; "), obs, strings.Join(mws, "; "), obs)
+		c.Printf("Eval vm_compute in (\"%d\"%%string, model_agrees [%s] %s, property_holds [%s] %s).\n", id, strings.Join(mws, "; "), obs, strings.Join(mws, "; "), obs)
 		key, _ := json.Marshal(cs)
 		nresp := 0
 		for _, m := range cs.MWs {
